@@ -10,7 +10,7 @@ func init() {
 		Technique:   "property-based testing (rapid) with virtual time (testing/synctest) against a reference failure-detector model",
 		DesignRef:   "DESIGN.md section 3, C13",
 		Runs: []run{
-			{Test: "TestC13_KeepAlive", Quick: 2500, Thorough: 30000},
+			{Test: "TestC13_KeepAlive", Quick: 2500, Thorough: 120000},
 		},
 	})
 }
